@@ -634,6 +634,12 @@ hs_grid_3_0 <<= And([ \
 ]).setParseAction(_gen_grid)
 
 
+# pyparsing expands tabs to blanks before parsing unless told otherwise; a raw
+# tab is not legal inside a ZINC string or URI and must not be rewritten.
+for _top in (hs_grid_2_0, hs_grid_3_0, hs_scalar_2_0, hs_scalar_3_0):
+    _top.parseWithTabs()
+
+
 def parse_grid(grid_data, parseAll=True):
     """
     Parse the incoming grid.
